@@ -17,6 +17,14 @@
 (*                  are exact only where no rare entry can influence them (VExact,      *)
 (*                  QExact, OccExact, InitExact below), and only those are emitted as    *)
 (*                  binding.                                                             *)
+(*       near1      1: the discount handed to msdm is 1 - eps for an arbitrarily small    *)
+(*                  eps > 0 (the harness uses 1 - 2^-20 or 0.999999); GN/GD is a         *)
+(*                  surrogate discount < 1.  Everything is finite as for any discount    *)
+(*                  below 1; finite entries bind only where they do not depend on the    *)
+(*                  discount at all (GFreeV / GFreeQ / GFreeOcc), checked against a      *)
+(*                  second surrogate discount.                                          *)
+(*       explicit   1: the state list holds every state; 0: it is inferred (Reach), and  *)
+(*                  msdm drops the successors of absorbing states that are not listed    *)
 (*       hist, sp, ap   hist = 1: the same policy OBJECT is evaluated a second time, on  *)
 (*                  a second presentation of the MDP whose state list / action list are  *)
 (*                  permuted by sp / ap (round 2 of the machine, started by Reuse with   *)
@@ -70,14 +78,27 @@ RareStates(m, t) == {s \in NonAbs(m) : \E a \in Ac(m) : t[s][a] = 1}
 \* states that reach (in >= 0 steps of the policy) a state with a rare entry
 Infl(m, ww, t) == LET rs == RareStates(m, t) IN
                   {s \in NonAbs(m) : s \in rs \/ ReachPi(m, ww, s) \cap rs # {}}
-VExact(m, ww, t)   == St(m) \ Infl(m, ww, t)
-QExact(m, ww, t)   == LET inf == Infl(m, ww, t) IN
+\* ---- discount "1 - eps": what does not depend on the discount at all
+\* states worth 0 under every discount: no expected reward anywhere on the policy's way
+ZeroSet(m, ww) == {s \in St(m) : s \in ExplAbs(m) \/
+                      (RPi(m, ww, s) = 0 /\ \A x \in ReachPi(m, ww, s) : x \in ExplAbs(m) \/ RPi(m, ww, x) = 0)}
+GFreeV(m, ww) == IF m.near1 = 0 THEN St(m)
+                 ELSE LET z == ZeroSet(m, ww) IN {s \in St(m) : s \in ExplAbs(m) \/ SuccPi(m, ww, s) \subseteq z}
+GFreeQ(m, ww) == IF m.near1 = 0 THEN [s \in St(m) |-> [a \in Ac(m) |-> 1]]
+                 ELSE LET z == ZeroSet(m, ww) IN
+                      [s \in St(m) |-> [a \in Ac(m) |-> IF a \notin Avail(m, s) \/ Succ(m, s, a) \subseteq z THEN 1 ELSE 0]]
+GFreeOcc(m, ww) == IF m.near1 = 0 THEN St(m)
+                   ELSE {x \in St(m) : \A s \in St(m) \ AbsAll(m) : PPi(m, ww, s, x) = 0}
+VExact(m, ww, t)   == (St(m) \ Infl(m, ww, t)) \cap GFreeV(m, ww)
+QExact(m, ww, t)   == LET inf == Infl(m, ww, t)
+                          gf  == GFreeQ(m, ww) IN
                       [s \in St(m) |-> [a \in Ac(m) |->
-                         IF a \in Avail(m, s) /\ \E x \in Succ(m, s, a) : x \in inf /\ x \notin ExplAbs(m) THEN 0 ELSE 1]]
+                         IF gf[s][a] = 0 \/ (a \in Avail(m, s) /\ \E x \in Succ(m, s, a) : x \in inf /\ x \notin ExplAbs(m))
+                         THEN 0 ELSE 1]]
 \* occupancy of x: exact unless a rare state lies on a way to x (or is x)
 OccExact(m, ww, t) == LET rs == RareStates(m, t) \ AbsAll(m)
                           mm == [m EXCEPT !.abs = [s \in St(m) |-> IF s \in AbsAll(m) THEN 1 ELSE 0]] IN
-                      {x \in St(m) : x \notin rs /\ \A s \in rs : x \notin ReachPi(mm, ww, s)}
+                      {x \in GFreeOcc(m, ww) : x \notin rs /\ \A s \in rs : x \notin ReachPi(mm, ww, s)}
 InitExact(m, ww, t) == InitSupp(m) \subseteq VExact(m, ww, t)
 \* another surrogate with the same support: rows of rare states get weights 1,5 / 1,2,3 in index order
 AltRow(m, r) == LET sup == {a \in Ac(m) : r[a] > 0}
@@ -99,6 +120,11 @@ Present(m, sp, ap) ==
      !.gw    = [i \in St(m) |-> [j \in Ac(m) |-> m.gw[sp[i]][ap[j]]]]])
 PresentW(m, ww, sp, ap) ==
   TLCEval([i \in {x \in St(m) : m.abs[sp[x]] = 0} |-> [j \in Ac(m) |-> ww[sp[i]][ap[j]]]])
+\* the other surrogate discount of a near-one instance
+AltM(m) == IF m.near1 = 0 THEN m
+           ELSE [m EXCEPT !.GN = (IF m.GD = 2 THEN 3 ELSE 1), !.GD = (IF m.GD = 2 THEN 4 ELSE 2)]
+\* the state list msdm works on
+Lst(m) == IF m.explicit = 1 THEN St(m) ELSE Reach(m)
 IsPerm(f, n) == /\ Len(f) = n /\ {f[i] : i \in 1..n} = 1..n
 \* the tabular view of the instance: implicitly absorbing states count as absorbing
 TM(m) == [m EXCEPT !.abs = [s \in St(m) |-> IF s \in AbsAll(m) THEN 1 ELSE 0]]
@@ -181,13 +207,21 @@ Inverse(m, x, U) ==
 
 MatVec(m, S, r)  == TLCEval([i \in St(m) |-> RSumTo([j \in St(m) |-> RMul(S[i][j], Norm(r[j], m.PD * QD))], m.N)])
 VecMat(m, S)     == TLCEval([z \in St(m) |-> RSumTo([s \in St(m) |-> RMul(S[s][z], Norm(m.p0[s], m.ID))], m.N)])
-QCell(m, v, s, a) ==
+\* rows of explicitly absorbing states: successors outside the state list are dropped by the array builders
+TQ(m, lst, s, a, t) == IF s \in ExplAbs(m) /\ t \notin lst THEN 0 ELSE TT(m, s, a, t)
+QCell(m, lst, v, s, a) ==
   IF a \notin Avail(m, s) THEN UNAV                                   \* log(0)
-  ELSE IF \E t \in St(m) : TT(m, s, a, t) > 0 /\ v[t] = NEG THEN NEG
-  ELSE RAdd(Norm(SAR(m, s, a), m.PD),
-            RSumTo([t \in St(m) |-> IF TT(m, s, a, t) = 0 \/ v[t] = NEG THEN <<0, 1>>     \* 0 * -inf := 0
-                                     ELSE RMul(Norm(m.GN * TT(m, s, a, t), m.GD * m.PD), v[t])], m.N))
-QTab(m, v) == TLCEval([s \in St(m) |-> [a \in Ac(m) |-> QCell(m, v, s, a)]])
+  ELSE IF \E t \in St(m) : TQ(m, lst, s, a, t) > 0 /\ v[t] = NEG THEN NEG
+  ELSE RAdd(Norm(SumTo([t \in St(m) |-> TQ(m, lst, s, a, t) * m.R[s][a][t]], m.N), m.PD),
+            RSumTo([t \in St(m) |-> IF TQ(m, lst, s, a, t) = 0 \/ v[t] = NEG THEN <<0, 1>>     \* 0 * -inf := 0
+                                     ELSE RMul(Norm(m.GN * TQ(m, lst, s, a, t), m.GD * m.PD), v[t])], m.N))
+QTab(m, v) == LET lst == TLCEval(Lst(m)) IN
+              TLCEval([s \in St(m) |-> [a \in Ac(m) |-> QCell(m, lst, v, s, a)]])
+\* -infinity marks unavailability: an AVAILABLE action of an absorbing state must not be worth -infinity
+\* unless one of its successors is
+AbsFinite(m, v) == [s \in St(m) |-> [a \in Ac(m) |->
+                      IF s \in ExplAbs(m) /\ a \in Avail(m, s)
+                         /\ ~\E x \in Succ(m, s, a) : x \notin ExplAbs(m) /\ v[x] = NEG THEN 1 ELSE 0]]
 Dot0(m, v) ==
   IF \E s \in InitSupp(m) : v[s] = NEG THEN NEG
   ELSE RSumTo([s \in St(m) |-> IF m.p0[s] = 0 THEN <<0, 1>> ELSE RMul(Norm(m.p0[s], m.ID), v[s])], m.N)
@@ -211,7 +245,8 @@ Fixed == UNCHANGED <<iid, w, tn, wa, round>>
 
 \* the ground truth of the pair (kept out of Init: TLC evaluates initial states in a single thread)
 Ground       == Step("init", "start")
-                /\ orc' = [k \in (IF RareStates(M, tn) = {} THEN {1} ELSE {1, 2}) |-> Oracle(M, IF k = 1 THEN w ELSE wa)]
+                /\ orc' = [k \in (IF RareStates(M, tn) = {} /\ M.near1 = 0 THEN {1} ELSE {1, 2}) |->
+                             Oracle(IF k = 1 THEN M ELSE AltM(M), IF k = 1 THEN w ELSE wa)]
                 /\ Fixed /\ UNCHANGED <<pm, sr, mp, acc, cls, SR, V, Q, occ, ival>>
 \* policy_matrix = self._policy_matrix_on(mdp): rows in the order of mdp.state_list, columns in the
 \* order of mdp.action_list, recomputed for the MDP at hand (also Policy.to_tabular)
@@ -296,6 +331,7 @@ Emit ==
                    vexact |-> SeqSet(VExact(M, w, tn), M.N), qexact |-> QExact(M, w, tn),
                    oexact |-> SeqSet(OccExact(M, w, tn), M.N),
                    iexact |-> IF InitExact(M, w, tn) THEN 1 ELSE 0,
+                   absfin |-> AbsFinite(M, orc[1].v),
                    v |-> orc[1].v, q |-> orc[1].q, occ |-> orc[1].occ, init |-> orc[1].init,
                    mq |-> Q,                                   \* machine's action values (also absorbing rows)
                    absall |-> SeqSet(AbsAll(M), M.N), implabs |-> SeqSet(ImplAbs(M), M.N),
@@ -368,13 +404,15 @@ InstanceOK == phase = "init" =>
   /\ WellFormed(M)
   /\ PolicyOK(M, w)
   /\ FlagsOK(M, w, tn)
+  /\ M.near1 = 1 => (Discounted(M) /\ Discounted(AltM(M)))
+  /\ M.hist = 1 => M.explicit = 1
   /\ IsPerm(M.sp, M.N) /\ IsPerm(M.ap, M.K)
   /\ DeadEnd(M) = {}
   /\ Discounted(M) \/ \A s \in St(M) : \A a \in Avail(M, s) : \A t \in St(M) : M.P[s][a][t] > 0 => M.R[s][a][t] <= 0
 
 \* (P7) termination is checked by TLC's deadlock detection (see Finished)
 
-\* (P8) rare weights: the -infinity / +infinity sets depend on the support only, and the entries
+\* (P8) rare weights / discount 1 - eps: the -infinity / +infinity sets depend on the support only, and the entries
 \*      declared exact do not depend on the size of the rare weights (another surrogate, same answer)
 \*      (written over parameters: o = oracle of the surrogate, ab = oracle of the other surrogate)
 RareOK(m, ww, t, o, ab) ==
@@ -389,7 +427,7 @@ RareOK(m, ww, t, o, ab) ==
   /\ InitExact(m, ww, t) => ab.init = o.init
   /\ (ab.init = NEG) <=> (o.init = NEG)
 RareWeightsIrrelevantWhereExact ==
-  (Done /\ RareStates(M, tn) # {}) => RareOK(M, w, tn, orc[1], orc[2])
+  (Done /\ (RareStates(M, tn) # {} \/ M.near1 = 1)) => RareOK(M, w, tn, orc[1], orc[2])
 
 \* (P9) history independence: the second evaluation by the same policy object, on the permuted
 \*      presentation, ends in the (permuted) oracle values as a fresh evaluation does
